@@ -162,7 +162,7 @@ def steady_state_transport_solver(
         fftq0 = fftshift(fftq0)
 
         # truncate fourier series by removing higher-frequency components
-        tfftq0 = fftq0[dly : nye - dly, dlx : nxe - dlx]
+        tfftq0 = fftq0[dly : dly + nly, dlx : dlx + nlx]
 
         # unshift
         tfftq0 = ifftshift(tfftq0)
@@ -307,10 +307,16 @@ def steady_state_transport_solver(
 
     # untruncate
     fftp = np.pad(
-        tfftp, ((0, 0), (dly, dly), (dlx, dlx)), mode="constant", constant_values=0.0
+        tfftp,
+        ((0, 0), (dly, nye - nly - dly), (dlx, nxe - nlx - dlx)),
+        mode="constant",
+        constant_values=0.0,
     )
     fftq = np.pad(
-        tfftq, ((0, 0), (dly, dly), (dlx, dlx)), mode="constant", constant_values=0.0
+        tfftq,
+        ((0, 0), (dly, nye - nly - dly), (dlx, nxe - nlx - dlx)),
+        mode="constant",
+        constant_values=0.0,
     )
 
     # unshift
